@@ -20,18 +20,13 @@ def run_common(ctx, prop, modules, l1_scripts, stride, nops):
     # ---- known findings: replay each witness, print while it still fails ----
     still = {}
     for kf in ctx.known:
-        if kf.get("status") != "known":
+        if kf.get("status") != "known" or not kf.get("witness"):
             continue
-        w = kf.get("witness")
-        if not w:
+        r = ctx.witness_still_fails(kf)
+        if r is None:
             continue
-        text = open(ctx_path(w)).read()
-        script = text.split("--- script", 1)[1].lstrip("\n")
-        lines, rc, err = ctx.script(script)
-        obs = [l[len("observed-last "):].strip() for l in text.split("\n") if l.startswith("observed-last ")]
-        fails = bool(lines) and any(o == lines[-1].strip() for o in obs)
-        still[kf["id"]] = fails
-        if fails:
+        still[kf["id"]] = r
+        if r:
             ctx.known_finding(kf)
     # ---- A: byte-exact correspondence on the modelled containers ----
     fa, sa = HC.l1_campaign(ctx, l1_scripts)
